@@ -23,7 +23,13 @@ func PodsFilter(sources ...*corev1.ReplicationController) filter.ComparableFilte
 	filters := make([]filter.Filter, 0, len(srcs))
 
 	for _, svc := range srcs {
-		filters = append(filters, filter.Labels(svc.Spec.Selector))
+		// a replication controller without selector selects by the labels of
+		// its pod template, as the other workload filters do
+		sel := svc.Spec.Selector
+		if len(sel) == 0 && svc.Spec.Template != nil {
+			sel = svc.Spec.Template.Labels
+		}
+		filters = append(filters, filter.Labels(sel))
 	}
 
 	return filter.Or(filters...)
